@@ -16,7 +16,7 @@ import time
 import common
 import pbatch
 from common import CICADA_BIN, reset_signal_state
-from psim import WATCHDOG, HarnessError, Rng, Sim, Violation, proc_state
+from psim import WATCHDOG, HarnessError, Rng, Sim, Violation, proc_state, proc_syscall
 from ptyrun import PtyShell
 
 PLAIN = "abcdefghijklmnopqrstuvwxyzABCDEFGHIJKLMNOPQRSTUVWXYZ0123456789"
@@ -145,7 +145,17 @@ def gen_scenario(rng, cfg):
         elif r < 84:
             ops.append({"op": "listp", "dir": rng.choice(DIRS)})
         elif r < 88:
-            ops.append({"op": "newshell"})
+            if cfg.get("dedup") and rng.chance(50):
+                # a shell starts (its duplicate purge runs) while another process holds the write lock and records a line
+                # (with a line stored twice, so that the purge has something to do)
+                k += 1
+                d = "D%d=same" % rng.below(3)
+                ops.append({"op": "type", "shell": sh, "text": d, "kind": "plain"})
+                ops.append({"op": "type", "shell": sh, "text": gen_line(rng, k), "kind": "plain"})
+                ops.append({"op": "type", "shell": sh, "text": d, "kind": "plain"})
+                ops.append({"op": "lockstart"})
+            else:
+                ops.append({"op": "newshell"})
         elif r < 91:
             k += 2
             ops.append({"op": "overlap", "shell": sh, "other": sh + 1, "text": gen_line(rng, k - 1), "inner": gen_line(rng, k)})
@@ -501,6 +511,55 @@ class C18Runner:
                 self.to_prompt(sh, first=True)
                 self.model_dedupe()
                 self.sim.probe("second_or_third_shell_on_the_same_database")
+            return
+        if k == "lockstart":
+            if not os.path.exists(self.hfile) or len(self.shells) >= 3:
+                return
+            con = sqlite3.connect(self.hfile, timeout=5, isolation_level=None)
+            try:
+                con.execute("BEGIN IMMEDIATE")
+                table = con.execute("SELECT name FROM sqlite_master WHERE type='table'").fetchone()[0]
+            except (sqlite3.OperationalError, TypeError):
+                con.close()
+                return
+            text = "F%d=recorded-by-another-process" % (self.seq + 1)
+            ts = self.tick()
+            plain = os.path.join(self.dirs, "plain")
+            con.execute("INSERT INTO %s (inp, rtn, tsb, tse, sessionid, info) VALUES (?,?,?,?,?,?)" % table,
+                        (text, 0, ts, ts, "other-process", "dir:%s|" % plain))
+            sim = Sim(self.sched, False)
+            env = self.shell_env(len(self.shells))
+            pty = PtyShell(sim, env_extra=env, cwd=plain)
+            sh = Shell(len(self.shells), sim, pty)
+            sh.cwd = plain
+            self.shells.append(sh)
+            self.extra_sims.append(sim)
+            state = {"held": True}
+            give_up = time.time() + 1.0
+
+            def cb():
+                # release once the starting shell sits in sqlite's busy handler (or after a second)
+                if not state["held"]:
+                    return
+                sc_ = proc_syscall(sim.shell_pid)
+                if (sc_ is not None and sc_[0] in (35, 230)) or time.time() >= give_up:
+                    state["held"] = False
+                    con.execute("COMMIT")
+                    con.close()
+            sim.idle_cb = cb
+            self.ev("start-shell-while-locked", sh.idx)
+            self.sim.fault("database_write_locked_while_a_shell_starts")
+            try:
+                self.to_prompt(sh, first=True)
+            finally:
+                sim.idle_cb = None
+                if state["held"]:
+                    state["held"] = False
+                    con.execute("COMMIT")
+                    con.close()
+            self.add_row(text, ts, cwd=plain)
+            self.model_dedupe()
+            self.check_db("a shell starting while another process held the write lock and recorded a line")
             return
         if k == "locked":
             # fault: another process holds the write lock of the database for a moment (a quarter of a
